@@ -10,11 +10,11 @@ import (
 
 type storeGenState struct {
 	r       *rand.Rand
-	clock   int64                    // strictly increasing control clock (ns)
+	clock   int64                     // strictly increasing control clock (ns)
 	used    map[string]map[int64]bool // target|type|normkey -> times used
-	nodes   []string                 // node ids that exist (have an edge) or were written to
-	edges   map[string]bool          // "parent>node" present
-	parents map[string][]string      // node -> parents (any edge)
+	nodes   []string                  // node ids that exist (have an edge) or were written to
+	edges   map[string]bool           // "parent>node" present
+	parents map[string][]string       // node -> parents (any edge)
 	ops     []sOp
 	kinds   map[string]int
 }
